@@ -294,6 +294,8 @@ def _run_case(ck, desc):
         ck.violation("bad-input-rejected", {"missing": sorted(need - have), "p_i": p_i, "range": [p[0], p[-1]], "m_i": float(obj.m_i)}, desc)
         return True, None
 
+    if int(desc["u"][4] * 1000) % 4 == 0 and len(p) <= 5000:
+        tables.probe_copies(ck, desc, obj, np.concatenate([p, 0.5 * (p[1:] + p[:-1])]))
     props = obj.pvt_props
     ms = np.asarray(props["m-scaled"], dtype=float)
     al = np.asarray(props["alpha"], dtype=float)
